@@ -174,7 +174,7 @@ class IntOracle:
         d = z3.simplify(a - b)
         if z3.is_int_value(d): return 'eq' if d.as_long() == 0 else 'ne'
         key = d.get_id()
-        if key in self.cache: return self.cache[key]
+        if key in self.cache: return self.cache[key][1]
         r = None
         self.s.push(); self.s.add(a != b)
         if self.s.check() == z3.unsat: r = 'eq'
@@ -183,7 +183,7 @@ class IntOracle:
             self.s.push(); self.s.add(a == b)
             if self.s.check() == z3.unsat: r = 'ne'
             self.s.pop()
-        self.cache[key] = r
+        self.cache[key] = (d, r)      # keep d alive: AST ids are reused after garbage collection
         return r
 
 
@@ -461,7 +461,7 @@ def _check(solver, ms):
 
 def instantiate(quants, plain, goal, extra_terms=(), rounds=2, cap=400, goal_only=False):
     insts = []
-    done = set()
+    done = set(); alive = []
     base = ([] if goal_only else list(plain)) + [goal]
     for rnd in range(rounds):
         terms = index_terms(base + ([] if goal_only else insts)) + list(extra_terms)
@@ -476,7 +476,7 @@ def instantiate(quants, plain, goal, extra_terms=(), rounds=2, cap=400, goal_onl
                     k = z3.simplify(t - c) if c else t
                     key = (id(q), k.get_id())
                     if key in done: continue
-                    done.add(key)
+                    done.add(key); alive.append(k)
                     new.append(q.inst(k))
                     if len(insts) + len(new) > cap: break
         if not new: break
